@@ -287,3 +287,22 @@ M("int_listener_needs_ca", ["C05"], "an integer ECU listener does not make the s
   ("j1939/electronic_control_unit.py", "            if dic['dev_adr'] == dest:\n                return True\n        return False", "            if dic['dev_adr'] == dest:\n                return False\n        return False"))
 M("tp21_cts_abort_for_foreign", ["C05"], "J1939-21: TP.CM handled before the destination filter",
   ("j1939/j1939_21.py", "        # iterate all CAs to check if we have to handle this destination address\n        if dest_address != ParameterGroupNumber.Address.GLOBAL:", "        if pgn_value == ParameterGroupNumber.PGN.TP_CM and data[0] == 17:\n            self._process_tp_cm(mid, dest_address, data, timestamp)\n            return\n        # iterate all CAs to check if we have to handle this destination address\n        if dest_address != ParameterGroupNumber.Address.GLOBAL:"))
+
+M("dtc_fmi_mask_4bit", ["C16"], "FMI packed with a 4-bit mask",
+  ("j1939/diagnostic_messages.py", "((fmi & 0x1F) << 16)", "((fmi & 0x0F) << 16)"))
+M("dtc_spn_high_shift", ["C16"], "SPN high bits unpacked with the wrong shift",
+  ("j1939/diagnostic_messages.py", "self._spn = ((dtc & 0xFFFF) | ((dtc >> 5) & 0x70000))", "self._spn = ((dtc & 0xFFFF) | ((dtc >> 4) & 0x70000))"))
+M("lamp_lut_rows_swapped", ["C16"], "slow and fast flash swapped in the lamp LUT",
+  ("j1939/diagnostic_messages.py", "ON_SLOW_FLASH: [1,0], ON_FAST_FLASH: [1,1]", "ON_SLOW_FLASH: [1,1], ON_FAST_FLASH: [1,0]"))
+M("lamp_order_swapped", ["C16"], "lamp key order pl/awl swapped",
+  ("j1939/diagnostic_messages.py", "_KEYS = ['pl', 'awl', 'rsl', 'mil']", "_KEYS = ['awl', 'pl', 'rsl', 'mil']"))
+M("dm1_oc_default_one", ["C16"], "missing occurrence count defaults to 1",
+  ("j1939/diagnostic_messages.py", "                dtc_dic['oc'] = 0", "                dtc_dic['oc'] = 1"))
+M("dm1_parse_drops_last_dtc_when_len8", ["C16"], "receiver mis-parses 8-byte DM1",
+  ("j1939/diagnostic_messages.py", "        number_dtc = int(dtc_length / 4)", "        number_dtc = int(dtc_length / 4) if length != 18 else 3"))
+M("dm1_stop_send_noop", ["C16"], "stop_send removes the user callback again (D7 reverted)",
+  ("j1939/diagnostic_messages.py", "        self._ca.remove_timer(self._send)", "        self._ca.remove_timer(callback)"))
+M("dm22_spn_shift", ["C16"], "DM22 SPN high bits shifted by 22 (D8 reverted)",
+  ("j1939/diagnostic_messages.py", "((spn >> 11) & 0xE0)", "((spn >> 22) & 0xE0)"))
+M("dm1_priority_only", ["C16"], "harmless: DM1 priority 6 always", 
+  ("j1939/diagnostic_messages.py", "            priority = 7\n        else:", "            priority = 6\n        else:"))
